@@ -74,10 +74,11 @@ def _coqc(path, timeout):
         return 124, "TIMEOUT after %ss\n%s" % (timeout, e.stdout or ""), time.time() - t0
 
 
-_RESULT = re.compile(r"=\s*\(\s*(\d+)\s*,\s*\[([0-9;\s]*)\]\s*\)")
+_RESULT = re.compile(r"=\s*\(\s*(\d+)\s*,\s*\[([0-9;\s]*)\]\s*(?:,\s*(\d+)\s*)?\)")
+LAST_OOD = [None]  # number of out-of-domain items counted by the last run_shards call (None: the property has no OOD term)
 
 
-def run_shards(prop, header, case_type, model_term, eqb_term, cases, shard_size=400, timeout=600):
+def run_shards(prop, header, case_type, model_term, eqb_term, cases, shard_size=400, timeout=600, ood_term=None):
     """cases: list of dicts with key 'coq' (a Coq term of type case_type * obs type).
     Evaluates the model inside Coq on every case and returns the indices (into cases) where
     the model's observation differs from the embedded implementation observation.
@@ -98,12 +99,19 @@ def run_shards(prop, header, case_type, model_term, eqb_term, cases, shard_size=
             fh.write("Definition cases : list (%s) := [\n" % case_type)
             fh.write(";\n".join(c["coq"] for c in sh))
             fh.write("\n].\n")
-            fh.write(
-                "Eval vm_compute in (length cases, mismatches_from (fun c => negb (%s (%s (fst c)) (snd c))) 0 cases).\n"
-                % (eqb_term, model_term)
-            )
+            if ood_term:
+                fh.write(
+                    "Eval vm_compute in (length cases, mismatches_from (fun c => negb (%s (%s (fst c)) (snd c))) 0 cases, "
+                    "fold_left (fun a c => (a + %s (fst c))%%nat) cases 0%%nat).\n" % (eqb_term, model_term, ood_term)
+                )
+            else:
+                fh.write(
+                    "Eval vm_compute in (length cases, mismatches_from (fun c => negb (%s (%s (fst c)) (snd c))) 0 cases).\n"
+                    % (eqb_term, model_term)
+                )
         paths.append(path)
     bad, errors = [], []
+    LAST_OOD[0] = 0 if ood_term else None
     with concurrent.futures.ThreadPoolExecutor(max_workers=JOBS) as ex:
         results = list(ex.map(lambda p: _coqc(p, timeout), paths))
     for k, (rc, out, _) in enumerate(results):
@@ -117,6 +125,8 @@ def run_shards(prop, header, case_type, model_term, eqb_term, cases, shard_size=
             errors.append("shard %d: evaluated %d of %d cases" % (k, n, len(shards[k])))
         for tok in m.group(2).replace(";", " ").split():
             bad.append(k * shard_size + int(tok))
+        if ood_term and m.group(3):
+            LAST_OOD[0] += int(m.group(3))
     for p in paths:
         for ext in (".vo", ".vok", ".vos", ".glob"):
             try:
